@@ -10,6 +10,7 @@ pub mod c12;
 pub mod c13;
 pub mod c14;
 pub mod c15;
+pub mod c16;
 
 use crate::report::Tier;
 
@@ -29,6 +30,7 @@ pub fn run(id: &str, tier: &Tier, child: bool) -> Result<i32, String> {
         "C13" => c13::c13(tier, child),
         "C14" => c14::c14(tier),
         "C15" => c15::c15(tier),
+        "C16" => c16::c16(tier, child),
         "C05" => e2_checks::c05(tier),
         _ => Err(format!("no check registered for {}", id)),
     }
